@@ -253,14 +253,63 @@ def field_bool_switches(fn, field):
     return out
 
 
+_PINNED = None
+
+
+def pinned_fns():
+    """named functions that existed on the pinned tree (tables/pinned_fns.json)"""
+    global _PINNED
+    if _PINNED is None:
+        import json, os
+        try:
+            with open(os.path.join(os.path.dirname(os.path.dirname(os.path.abspath(__file__))), "tables", "pinned_fns.json")) as fh:
+                _PINNED = set(json.load(fh)["fns"])
+        except Exception:
+            _PINNED = set()
+    return _PINNED
+
+
 def view(P, f, keep=None):
-    """f with its local helper functions inlined (cached); `keep` = regex of callees the rule wants to keep as calls"""
+    """f with local helper functions inlined (cached).
+    keep = regex of callees the rule wants to keep as calls: everything else that is helper-like is inlined.
+    keep = None ("auto"): exactly the functions that did not exist on the pinned tree are inlined - a helper extracted by a later
+    refactoring disappears from the rule's point of view, while every function the rules know by name stays a call."""
     from . import inline as I
     cache = P.__dict__.setdefault("_views", {})
     k = (f.key, keep)
     if k not in cache:
-        cache[k] = I.inline(P, f, I.helper_like(P, keep))
+        if keep is None:
+            pinned = pinned_fns()
+            base = I.helper_like(P, None)
+            sel = lambda g: base(g) and g.spath not in pinned
+        else:
+            pinned = pinned_fns()
+            base = I.helper_like(P, keep)
+            # new (unpinned) helpers are always looked through, also when they happen to match `keep`
+            auto = I.helper_like(P, None)
+            sel = lambda g: base(g) or (auto(g) and g.spath not in pinned)
+        v = I.inline(P, f, sel)
+        cache[k] = v if v.inlined else f
+        if not v.inlined:
+            f.inlined = []
     return cache[k]
+
+
+def closures_of(P, fv):
+    """closure functions belonging to a view: those of the function itself and of every helper inlined into it (transitively)"""
+    out, seen = [], set()
+    roots = [fv.key] + [g.key for g in P.fns.values() if g.kind != "Closure" and g.spath in set(getattr(fv, "inlined", []) or [])]
+    st = []
+    for r in roots:
+        st.extend(P.children.get(r, []))
+    while st:
+        ch = st.pop()
+        if ch.key in seen:
+            continue
+        seen.add(ch.key)
+        out.append(ch)
+        st.extend(P.children.get(ch.key, []))
+    return out
 
 
 def facts(fn, relevant=None, tag=None):
